@@ -1738,6 +1738,60 @@ func runAff8(m *Model, r *RuleResult) {
 	} else {
 		r.violation("lp:layer-from-final-max", dpos, "Node.Layer := L - height[n] with L the final maximum height", whyL)
 	}
+	aff8LayersFinal(m, r, drvName)
+}
+
+// aff8LayersFinal: what the longest-path layerer stored is what the later phases see: in every caller of the layerer nothing that
+// can run after the call modifies Node.Layer again (a balancing post-pass moves nodes off their longest-path band); a uniform
+// shift by a recognised normaliser keeps the bands and is tolerated.
+func aff8LayersFinal(m *Model, r *RuleResult, drvName string) {
+	m.fxInit()
+	d := m.SSAFunc("internal/phase2", drvName)
+	if d == nil {
+		return
+	}
+	n := 0
+	var bad []string
+	var pos string
+	for _, g := range m.Src {
+		if !inModule(g) || m.FuncIsPosctl(g) {
+			continue
+		}
+		for _, site := range staticCalls(g, func(c *ssa.Function) bool { return c == d }) {
+			n++
+			pos = m.Pos(site.Pos())
+			eachInstr(g, func(in ssa.Instruction) {
+				if in == ssa.Instruction(site) || !instrReaches(site, in) {
+					return
+				}
+				switch x := in.(type) {
+				case *ssa.Store:
+					if fa, ok := x.Addr.(*ssa.FieldAddr); ok {
+						if _, steps := fieldChain(fa); locOfSteps(steps) == igNode+".Layer" {
+							bad = append(bad, "Node.Layer is stored again at "+m.Pos(x.Pos()))
+						}
+					}
+				case ssa.CallInstruction:
+					for _, c := range m.Callees(x) {
+						if c == d || !inModule(c) || isNormaliser(c) {
+							continue
+						}
+						if e := m.effects[c]; e != nil && e.Mod[igNode+".Layer"] {
+							bad = append(bad, c.Name()+" (called at "+m.Pos(x.Pos())+") modifies Node.Layer after the layerer has run")
+						}
+					}
+				}
+			})
+		}
+	}
+	if n == 0 {
+		return
+	}
+	if len(bad) == 0 {
+		r.holds("lp:layers-final", pos, "nothing modifies Node.Layer after the longest-path layerer has returned (normalising shifts aside)")
+	} else {
+		r.violation("lp:layers-final", pos, "the layers computed by the longest-path layerer are the layers of the drawing", strings.Join(uniq(bad), "; ")+": nodes leave the band their longest path to a sink puts them in")
+	}
 }
 
 func runAff9(m *Model, r *RuleResult) {
